@@ -26,6 +26,11 @@ def main (args : List String) : IO UInt32 := do
     match env.find? n with
     | some (.thmInfo _) =>
       if n.isInternal then continue
+      -- skip compiler-generated equation lemmas and structure projections: not obligations
+      let last := match n with | .str _ s => s | _ => ""
+      if last.startsWith "eq_" || last == "induct" || last == "induct_unfolding" || last == "fun_cases"
+          || last == "sizeOf_spec" || last == "injEq" || last == "inj" || last == "noConfusion"
+          || (env.isProjectionFn n) then continue
       let isExample := (n.toString.splitOn "_example").length > 1
       let (axArr, _) := (collectAxioms (m := StateM Environment) n).run env
       let axs := axArr.toList.map (fun a => jsonStr a.toString)
